@@ -140,6 +140,9 @@ fn build_key(logical: usize, variant: u8) -> Key {
 pub const SHARED_VARIANT: u8 = 4;
 /// Variant 5 (Create only): the closure handed to get_or_create panics.
 pub const PANIC_VARIANT: u8 = 5;
+/// Variant 6: a clone of the run's shared lazily hashed key, taken by the operating thread right
+/// before the operation (a clone can race with another thread's first hashing of the original).
+pub const CLONED_SHARED_VARIANT: u8 = 6;
 struct OpPanic;
 static SHARED: Mutex<Vec<&'static Key>> = Mutex::new(vec![]);
 fn fresh_shared_keys() {
@@ -162,6 +165,10 @@ fn with_key<T>(logical: usize, variant: u8, f: impl FnOnce(&Key) -> T) -> T {
     if variant == SHARED_VARIANT {
         let k: &'static Key = SHARED.lock().unwrap()[logical];
         f(k)
+    } else if variant == CLONED_SHARED_VARIANT {
+        let k: &'static Key = SHARED.lock().unwrap()[logical];
+        let c = k.clone();
+        f(&c)
     } else {
         f(&build_key(logical, variant))
     }
@@ -442,10 +449,10 @@ impl Scenario for C06Registry {
                     v @ 0..=3 => v as u8,
                     4 | 5 => SHARED_VARIANT,
                     6 => PANIC_VARIANT,
-                    _ => 0,
+                    _ => CLONED_SHARED_VARIANT,
                 };
                 let op = match r.below(23) {
-                    20 => Op::Bump { kind, key, variant: variant.min(SHARED_VARIANT) },
+                    20 => Op::Bump { kind, key, variant: if variant == PANIC_VARIANT { SHARED_VARIANT } else { variant } },
                     21 => Op::RetainBumped { kind },
                     22 => {
                         if r.chance(500) {
